@@ -184,6 +184,7 @@
 (declare-fun sub (Str Int Int) Str)
 (declare-fun app (Str Str) Str)
 (declare-fun runeStr (Int) Str)
+(declare-fun byteStr (Int) Str)
 (declare-fun sprintf (Str Val Val Val) Str)
 (declare-const str_empty Str)
 (assert (= (slen str_empty) 0))
@@ -229,8 +230,8 @@
 (declare-fun nlcount (Str Int Int) Int)
 (assert (forall ((s Str) (a Int) (b Int)) (! (=> (<= b a) (= (nlcount s a b) 0)) :pattern ((nlcount s a b)))))
 (assert (forall ((s Str) (a Int) (b Int)) (! (=> (= b (+ a 1)) (= (nlcount s a b) (ite (= (at s a) 10) 1 0))) :pattern ((nlcount s a b)))))
-; resource assumption: no string has 2^63-2 or more bytes
-(assert (forall ((s Str)) (! (< (slen s) (- MAXINT 1)) :pattern ((slen s)))))
+; resource assumption: no string has 2^63-64 or more bytes (address space)
+(assert (forall ((s Str)) (! (< (slen s) (- MAXINT 64)) :pattern ((slen s)))))
 (assert (forall ((s Str)) (! (= (sub s 0 (slen s)) s) :pattern ((sub s 0 (slen s))))))
 ; ghost: line number cited by an error value (-1 when the message cites none)
 (declare-fun errLine (Val) Int)
